@@ -27,6 +27,25 @@ REFERENCE = {0x0300: "`", 0x0301: "'", 0x0302: "^", 0x0303: "~", 0x0304: "=", 0x
 U = "tex.uni2tex"
 
 
+def _uf(ctx):
+    """uni2tex, seen through its body after the state of a helper object it creates for itself (`w = Writer(); w.feed(ch)`)
+    has been turned into locals of the function (methods inlined, fields replaced by locals).  The original otherwise."""
+    def build():
+        from ..normalise import inline_helpers
+
+        P = ctx.P
+        f = P.func(U)
+        try:
+            body, n = inline_helpers(P, f, local_objects=True)
+        except Exception:
+            return f
+        if n and any(isinstance(x, ast.Name) and "__" in x.id and not x.id.startswith("__") for s_ in body for x in ast.walk(s_)):
+            return FuncView(f, body)
+        return f
+
+    return ctx.get("c19.uni2tex-view", build)
+
+
 def _loop(f):
     loops = [n for n in f.node.body if isinstance(n, (ast.For, ast.While))]
     return loops
@@ -59,7 +78,7 @@ def _guards_of(node, stop):
 @rule("C19.NOLOOKAHEAD")
 def nolookahead(ctx, R):
     P = ctx.P
-    f = P.func(U)
+    f = _uf(ctx)
     R.saw(f)
     text_p = f.params[0]
     loops = _loop(f)
@@ -89,7 +108,7 @@ def nolookahead(ctx, R):
 @rule("C19.UNPACK-ARITY")
 def unpack(ctx, R):
     P = ctx.P
-    f = P.func(U)
+    f = _uf(ctx)
     n = 0
     for nd in ast.walk(f.node):
         if isinstance(nd, ast.Assign) and isinstance(nd.targets[0], (ast.Tuple, ast.List)) and isinstance(nd.value, ast.Call) and isinstance(nd.value.func, ast.Attribute) and nd.value.func.attr == "split":
@@ -145,7 +164,7 @@ def _ast_facts(ctx, f, node):
 @rule("C19.HEXTOK")
 def hextok(ctx, R):
     P = ctx.P
-    fns = [P.func(U)] + [P.funcs[q] for q in sorted(ctx.cg.reachable([U])) if q != U and q in P.funcs and P.funcs[q].module.name == "tex"]
+    fns = [_uf(ctx)] + [P.funcs[q] for q in sorted(ctx.cg.reachable([U])) if q != U and q in P.funcs and P.funcs[q].module.name == "tex"]
     n = 0
     for f in fns:
         for nd in walk_local(f.node):
@@ -211,7 +230,7 @@ def _model(ctx):
     def build():
         P = ctx.P
         M = _Model()
-        f = P.func(U)
+        f = _uf(ctx)
         M.f = f
         loops = _loop(f)
         if len(loops) != 1 or not isinstance(loops[0], ast.For):
@@ -321,7 +340,7 @@ def _known_hole(h, M):
 @rule("C19.FLOW")
 def flow(ctx, R):
     P = ctx.P
-    f = P.func(U)
+    f = _uf(ctx)
     try:
         M = _model(ctx)
     except Undecided as e:
@@ -370,6 +389,14 @@ def flow(ctx, R):
     R.check(n_leaves >= 3, "C19.FLOW.inventory", "paths through the loop body: %d" % n_leaves, where(f), "", "the loop body has only %d paths (expected combining / attached / base cases)" % n_leaves, nontrivial=False)
 
 
+def _cbool(x):
+    if isinstance(x, bool):
+        return x
+    if isinstance(x, Const) and isinstance(x.v, bool):
+        return x.v
+    return None
+
+
 def _path_facts(path):
     facts = set()
 
@@ -384,6 +411,18 @@ def _path_facts(path):
                 add(x, False)
         elif isinstance(t, tuple) and t[0] == "cmp" and t[1] in ("ne", "isnot", "notin"):
             add(("cmp", {"ne": "eq", "isnot": "is", "notin": "in"}[t[1]], t[2], t[3]), not pol)
+        elif isinstance(t, tuple) and t[0] == "phi" and len(t) == 4 and (_cbool(t[2]) is not None or _cbool(t[3]) is not None) and \
+                ((_cbool(t[2]) is not None and _cbool(t[2]) != pol) or (_cbool(t[3]) is not None and _cbool(t[3]) != pol)):
+            # a helper's several returns folded into one condition: phi(A, x, y) == pol with a constant arm that differs from pol
+            bx, by = _cbool(t[2]), _cbool(t[3])
+            if bx is not None and bx != pol:
+                add(t[1], False)
+                if by is None:
+                    add(t[3], pol)
+            else:
+                add(t[1], True)
+                if bx is None:
+                    add(t[2], pol)
         else:
             from ..sym import ckey
             facts.add((ckey(t), pol))
@@ -458,7 +497,7 @@ def wrap(ctx, R):
 @rule("C19.TABLE")
 def table(ctx, R):
     P = ctx.P
-    f = P.func(U)
+    f = _uf(ctx)
     tbl, _tname, _tglobal = _find_table(P, f)
     if tbl is None:
         R.bad("C19.TABLE", U + "|accent table", where(f), "no literal accent table (code point -> command) in uni2tex")
